@@ -25,7 +25,7 @@ def _plan(tier):
     """(cat, variant, maxtx, maxlen, mode, expand states that already diverged)"""
     if tier == "quick":
         return [("q", "funder", 2, 4, "compact", False),
-                ("m", "funder", 2, 4, "compact", False),
+                ("m", "funder", 2, 5, "compact", False),
                 ("m", "funder", 2, 4, "streamed", False),
                 ("h", "funder", 2, 3, "compact", False),
                 ("h", "funder", 2, 3, "streamed", False),
